@@ -301,6 +301,9 @@ def order(ctx):
                     else:
                         ctx.fail('C04.2', f, node, 'keys come from %s(), whose result is not sorted by header code' % t.name)
                     continue
+            if _sorted_by_code(f, d):
+                ctx.ok('C04.2', f, node, 'keys are the second components of sorted(zip(codes, words)): ascending header code')
+                continue
             if isinstance(d, ast.Name) and d.id in f.params:
                 # caller-supplied list: every caller passes a slice of the TraceField enumeration or []
                 for e in G.callers(f):
@@ -337,6 +340,36 @@ def order(ctx):
                nontrivial=False)
     else:
         ctx.fail('C04.2', None, 'segyio.TraceField', 'the installed segyio TraceField enumeration is not ascending')
+
+
+def _sorted_by_code(f, d):
+    """[w for (_, w) in sorted(zip(C, W))] with C the header codes of the words W (element-wise map over W)."""
+    if not (isinstance(d, ast.ListComp) and len(d.generators) == 1 and not d.generators[0].ifs):
+        return False
+    g = d.generators[0]
+    if not (isinstance(g.target, ast.Tuple) and len(g.target.elts) == 2 and U(d.elt) == U(g.target.elts[1])):
+        return False
+    it = g.iter
+    if not (isinstance(it, ast.Call) and U(it.func) == 'sorted' and len(it.args) == 1 and not it.keywords):
+        return False
+    z = it.args[0]
+    if not (isinstance(z, ast.Call) and U(z.func) == 'zip' and len(z.args) == 2):
+        return False
+    codes, words = z.args
+
+    def resolve(e):
+        if isinstance(e, ast.Name):
+            defs = [a for a in ast.walk(f.node) if isinstance(a, ast.Assign) and len(a.targets) == 1 and U(a.targets[0]) == e.id]
+            if len(defs) == 1:
+                return defs[0].value
+        return e
+    c = resolve(codes)
+    if not (isinstance(c, ast.ListComp) and len(c.generators) == 1 and not c.generators[0].ifs):
+        return False
+    if U(c.generators[0].iter) != U(words) and U(resolve(c.generators[0].iter)) != U(resolve(words)):
+        return False
+    t = U(c.elt)
+    return ('tracefield.keys[' in t or '_get_hw_code(' in t) and U(c.generators[0].target) in t
 
 
 def _innermost_branch(node, stop):
@@ -589,25 +622,41 @@ def classification(ctx):
                  isinstance(a.value.func, ast.Attribute) and U(a.value.func.value) == 'self' and
                  'variant' in a.value.func.attr and 'duplic' not in a.value.func.attr]
         if not seeds:
+            # the helper is a single expression and was dissolved by the normal form: the list bound to the local
+            # that names the variant words
+            seeds = [a for a in ast.walk(m.node) if isinstance(a, ast.Assign) and len(a.targets) == 1 and
+                     isinstance(a.targets[0], ast.Name) and 'variant' in a.targets[0].id and 'duplic' not in a.targets[0].id
+                     and isinstance(a.value, ast.ListComp)]
+        if not seeds:
             raise AnalysisError('%s: the variant base list is not obtained from a helper' % m.qualname)
         bases[m] = seeds[0]
     want_var = frozenset(i for i, (n_, v) in enumerate(CLASSES) if not v['E'])
     for m, seed in bases.items():
-        got = pr.of_method(seed.value.func.attr)
+        if isinstance(seed.value, ast.Call):
+            got = pr.of_method(seed.value.func.attr)
+            sname = seed.value.func.attr + '()'
+        else:
+            got = pr.of_expr(m, seed.value, {}, 0)
+            sname = 'the list `%s`' % U(seed.targets[0])
         missing = sorted(want_var - got)
         extra = sorted(got - want_var)
         if missing:
-            ctx.fail('C04.7', m, seed, 'a header field that is %s is not treated as varying by %s(): it gets neither a stored '
+            ctx.fail('C04.7', m, seed, 'a header field that is %s is not treated as varying by %s: it gets neither a stored '
                      'array nor a table constant and reads back as 0 in every trace' % (
-                         ' / '.join(CLASSES[i][0] for i in missing), seed.value.func.attr), key_extra='missing')
+                         ' / '.join(CLASSES[i][0] for i in missing), sname), key_extra='missing')
         elif extra:
-            ctx.fail('C04.7', m, seed, '%s() also returns fields that are %s: a constant field is stored as if it varied' % (
-                seed.value.func.attr, ' / '.join(CLASSES[i][0] for i in extra)), key_extra='extra')
+            ctx.fail('C04.7', m, seed, '%s also returns fields that are %s: a constant field is stored as if it varied' % (
+                sname, ' / '.join(CLASSES[i][0] for i in extra)), key_extra='extra')
         else:
             ctx.ok('C04.7', m, seed, 'varying base = exactly the fields whose first and last values differ (3 of 5 classes)')
     # constants
-    consts = [c for c in ast.walk(init.node) if isinstance(c, ast.Compare) and len(c.ops) == 1 and isinstance(c.ops[0], ast.In)
-              and isinstance(c.comparators[0], ast.Call) and 'invariant' in U(c.comparators[0].func)]
+    # the membership test guarding the store of a table constant: `if hw in <list>: self.table[code] = (first value, 0)`
+    consts = []
+    for g in ast.walk(init.node):
+        if isinstance(g, ast.If) and isinstance(g.test, ast.Compare) and len(g.test.ops) == 1 and isinstance(g.test.ops[0], ast.In) \
+                and any(isinstance(a, ast.Assign) and U(a.targets[0]).startswith('self.table[') and isinstance(a.value, ast.Tuple)
+                        and len(a.value.elts) == 2 and U(a.value.elts[1]) == '0' and U(a.value.elts[0]) != '0' for a in g.body):
+            consts.append(g.test)
     if not consts:
         raise AnalysisError('HeaderwordInfo.__init__: the constant-field test was not found')
     got = pr.of_expr(init, consts[0].comparators[0], {}, 0)
